@@ -67,6 +67,31 @@ def runHist (reg : Reg) : List Open → Reg × List (Except String Nat)
     let (reg'', rs) := runHist reg' rest
     (reg'', r :: rs)
 
+/-- `registerreader(name, reader)` (also what defining a subclass of PseudoNetCDFFile does): a new name goes to the
+front of the registry, a known name is ignored -/
+def register (reg : Reg) (name : String) (r : Nat) : Reg :=
+  if (reg.map (·.1)).contains name then reg else (name, r) :: reg
+
+/-- an event of a process history: a file is opened, or a reader is registered -/
+inductive Event where
+  | opn (o : Open)
+  | reg (name : String) (r : Nat)
+
+/-- registry afterwards and, for every open, the reader used -/
+def runEvents (reg : Reg) : List Event → Reg × List (Except String Nat)
+  | [] => (reg, [])
+  | .opn o :: rest =>
+    let (reg', r) := openStep reg o
+    let (reg'', rs) := runEvents reg' rest
+    (reg'', r :: rs)
+  | .reg n r :: rest => runEvents (register reg n r) rest
+
+/-- the registrations of a history, applied in order -/
+def registrations (reg : Reg) : List Event → Reg
+  | [] => reg
+  | .opn _ :: rest => registrations reg rest
+  | .reg n r :: rest => registrations (register reg n r) rest
+
 open Wire
 
 def parseReg (s : String) : Option Reg :=
@@ -91,8 +116,20 @@ def showChoice : Except String Nat → String
   | .ok r => toString r
   | .error e => e
 
-/-- `hist <registry> <open>,<open>,…` -/
+/-- an event token: an open (`ext/yes/raises/format`) or `reg:<name>:<id>` -/
+def parseEvent (s : String) : Option Event :=
+  match s.splitOn ":" with
+  | ["reg", n, i] => (parseNat i).map (fun k => Event.reg n k)
+  | _ => (parseOpen s).map Event.opn
+
+/-- `hist <registry> <open>,<open>,…`; `events <registry> <event>,<event>,…` -/
 def run : List String → String
+  | ["events", reg, evs] =>
+    match parseReg reg, parseList parseEvent evs with
+    | some r, some es =>
+      let (r', cs) := runEvents r es
+      s!"ok chosen={showList showChoice cs} reg={showList (fun (p : String × Nat) => p.1) r'}"
+    | _, _ => "err parse"
   | ["hist", reg, opens] =>
     match parseReg reg, parseList parseOpen opens with
     | some r, some os =>
